@@ -50,6 +50,12 @@ Theorem served_fork_log_correct :
 Proof. exact served_fork_log_correct_lem. Qed.
 Print Assumptions served_fork_log_correct.
 
+(* multi-hop answers: the concatenation of the hop logs, oldest hop first *)
+Theorem multi_hop_log_correct : forall (path : list (list op)) (old : kvmap),
+  sorted old -> apply_writelog old (path_log old path) = run_path old path.
+Proof. exact multi_hop_log_correct_lem. Qed.
+Print Assumptions multi_hop_log_correct.
+
 (* ApplyWriteLog's pending-log bookkeeping does not change what is applied *)
 Theorem apply_writelog_is_fold : forall (old : kvmap) (wl : writelog),
   apply_writelog old wl = fold_left apply_entry wl old.
